@@ -1355,6 +1355,41 @@ func (d *dataCloser) readLMTPReplies() error {
 }
 
 func (d *dataCloser) Close() error {"""))
+variant("debug-writer-sanitises-a-copy",
+  ("conn.go", """			io.TeeReader(rwc.Reader, c.server.Debug),
+			io.MultiWriter(rwc.Writer, c.server.Debug),""", """			io.TeeReader(rwc.Reader, printableWriter{c.server.Debug}),
+			io.MultiWriter(rwc.Writer, printableWriter{c.server.Debug}),"""),
+  ("conn.go", "// Commands are dispatched to the appropriate handler functions.", """// printableWriter keeps 8-bit octets out of the debug log; it works on a copy,
+// the slice it is handed belongs to the caller.
+type printableWriter struct{ w io.Writer }
+
+func (p printableWriter) Write(b []byte) (int, error) {
+	c := append([]byte(nil), b...)
+	for i, ch := range c {
+		if ch >= 0x7f {
+			c[i] = '?'
+		}
+	}
+	if _, err := p.w.Write(c); err != nil {
+		return 0, err
+	}
+	return len(b), nil
+}
+
+// Commands are dispatched to the appropriate handler functions."""))
+
+variant("auth-challenge-encode-helper",
+  ("conn.go", """			encoded = base64.StdEncoding.EncodeToString(challenge)""", """			encoded = encodeSASLChallenge(challenge)"""),
+  ("conn.go", "func decodeSASLResponse(s string) ([]byte, error) {", """// encodeSASLChallenge is the counterpart of decodeSASLResponse.
+func encodeSASLChallenge(b []byte) string {
+	if len(b) == 0 {
+		return ""
+	}
+	return base64.StdEncoding.EncodeToString(b)
+}
+
+func decodeSASLResponse(s string) ([]byte, error) {"""))
+
 if sys.argv[1:] == ['--export']:
     out = [{"id": "benign-" + n, "edits": [{"file": f, "old": o, "new": w} for f, o, w in V[n]]} for n in V]
     json.dump(out, open('/verif/liveness/benign.json', 'w'), indent=1)
